@@ -45,7 +45,10 @@ MANIFEST = dict(
          "extrapolation regions for all three types; csg_resample identity clause also on long decimal tables with "
          "negative/zero-crossing abscissae and early/late flag transitions, and with 4-column (x y yerr flag) input "
          "tables. Scale family: ordinates x 2^{-60,-40,40}, abscissae x 2^{-20,20,30} (exact in binary): scaled instance = "
-         "base instance and all smoothness relations on the scaled instances (guard: some 0 < |f''| < 1e-12).",
+         "base instance and all smoothness relations on the scaled instances (guard: some 0 < |f''| < 1e-12). Reflection "
+         "symmetry (mirrored data, natural boundaries, all types, Interpolate and Fit). In the call histories the probe "
+         "order is part of the history (first point after a call = last point before it, varying order and "
+         "derivative/value order).",
     note="NOT covered: least-squares optimality of Fit beyond its first-order condition on small lattice data "
          "sets (normal equations against the cardinal splines of the fit grid, data on the quarter points of 3-5 "
          "knot grids; plus its consequences linearity, smoothness, boundary conditions, reproduction of in-space "
@@ -131,6 +134,17 @@ def lib_commands(rec, vec_overload):
                 cmds.append("%s %s %d %s %s" % (st["op"], slot, len(st["k"]), " ".join(fx(k) for k in st["k"]),
                                                 " ".join(fy(v) for v in st["y"])))
                 plan.append(("build", si, None, None))
+                # probe order is part of the history: evaluate exactly in the order the spec gives; the
+                # observations after the LAST call are the ones the relations talk about
+                last = j == len(ins["steps"]) - 1
+                for grp in st.get("pr", []):
+                    kind, pts = grp[0], grp[1:]
+                    name = ("calc", "der")[kind] + ("v" if vec_overload else "")
+                    cmds.append("%s %s %d %s" % (name, slot, len(pts), " ".join(fx(r) for r in pts)))
+                    plan.append(("obs" if last else "ok", si, kind, pts))
+                    if last:
+                        for r in pts:
+                            need.get((si, kind), {}).pop(r, None)
         elif ins["op"] == "interp":
             d = rec["data"][ins["d"] - 1]
             cmds.append("interp %s %d %s %s" % (slot, len(d["k"]), " ".join(fx(k) for k in d["k"]),
@@ -154,6 +168,8 @@ def lib_commands(rec, vec_overload):
             plan.append(("build", si, None, None))
     for (si, kind), pts in need.items():
         pts = list(pts)
+        if not pts:
+            continue
         name = ("calc", "der", "ivl")[kind]
         if vec_overload and kind < 2:
             name += "v"
@@ -206,6 +222,8 @@ def lib_check(ctx, rec, out, plan, exact_abs):
             sx, sy = 2.0 ** ins.get("xs", 0), 2.0 ** ins.get("ys", 0)
             back = (1.0 / sy, sx / sy, 1.0)[kind]       # observation of a scaled instance -> unscaled units (exact)
             for r, t in zip(arg, p[1:]):
+                if (si, kind, r) in obs:
+                    continue                      # a point evaluated twice in a history: the FIRST evaluation counts
                 obs[(si, kind, r)] = float(t) * back
                 raw[(si, kind, r)] = float(t)
     n = 0
